@@ -1548,3 +1548,49 @@ def _wrapped_by(node, names):
             return True
         t = getattr(t, "_parent", None)
     return False
+
+
+# ------------------------------------------------------------------------ T5
+_RE_FUNCS = {"compile", "match", "search", "fullmatch", "sub", "subn", "split", "findall", "finditer"}
+
+
+def rule_T5(ctx):
+    """every regular expression of the package is free of the constructs that make the backtracking matcher exponential
+    (matching time is part of the CPU bound of C13: cue sheet lines, names and paths are input-controlled)"""
+    from ..core import rx
+    from ..core.consts import NotConst
+    n = 0
+    for m in ctx.prog.modules.values():
+        for c in ast.walk(m.tree):
+            if not (isinstance(c, ast.Call) and isinstance(c.func, ast.Attribute) and c.func.attr in _RE_FUNCS and isinstance(c.func.value, ast.Name)):
+                continue
+            r = ctx.prog.resolve(m, c.func.value.id)
+            if not (r and r[0] in ("ext", "module") and (r[1] == "re" or (r[0] == "ext" and r[1] == "re"))):
+                if not (c.func.value.id == "re" and r is not None and r[0] == "ext"):
+                    continue
+            if not c.args:
+                continue
+            n += 1
+            try:
+                pat = ctx.folder.ev(c.args[0], m)
+            except NotConst as e:
+                ctx.ob("T5", c, "regex pattern is a constant of the package (its matching cost can be judged)", False, f"`{norm(c.args[0])[:60]}`: {e}",
+                       inst=f"regex-const:{m.path}:{norm(c.args[0])[:40]}", file=m.path)
+                continue
+            if not isinstance(pat, (str, bytes)):
+                continue
+            fl = 0
+            for k in c.keywords:
+                if k.arg == "flags":
+                    try:
+                        fl = int(ctx.folder.ev(k.value, m))
+                    except Exception:
+                        fl = 0
+            try:
+                tree = rx.parse(pat if isinstance(pat, str) else pat.decode("latin-1"), fl & 0xFFFF)
+            except Exception as e:
+                raise AnalysisError("T5", where(c), f"pattern does not parse: {e}")
+            hz = rx.backtracking_hazards(tree)
+            ctx.ob("T5", c, "regex has no exponential-backtracking construct (nested unbounded repeats / overlapping alternatives under a repeat)", not hz,
+                   f"{pat!r}: {'; '.join(hz)}" if hz else "", inst=f"regex:{m.path}:{pat!r}"[:120], file=m.path)
+    ctx.fact("T5", "regexes", n)
